@@ -5,10 +5,13 @@ import (
 	"fmt"
 	"math/big"
 	"reflect"
+	"strings"
 
 	"github.com/consensys/gnark/backend/witness"
 	"github.com/consensys/gnark/frontend"
 	"github.com/consensys/gnark/frontend/schema"
+
+	"github.com/consensys/gnark/test"
 
 	"verifharness/circuits"
 	"verifharness/common"
@@ -110,7 +113,7 @@ func schemaOne(e circuits.SchemaEntry, field string) SchemaRes {
 		sch, err := schema.New(e.New(), reflect.TypeOf((*frontend.Variable)(nil)).Elem())
 		if err != nil {
 			bad("schema.New: %v", err)
-		} else if js, err := w.ToJSON(sch); err != nil {
+		} else if js, err := safeToJSON(w, sch); err != nil {
 			bad("ToJSON: %v", err)
 		} else {
 			w3, _ := witness.New(mod)
@@ -217,6 +220,18 @@ func convCheck(field string) SchemaRes {
 		if len(vs) != 2 || vs[0].Cmp(c.want) != 0 || vs[1].Cmp(c.want) != 0 {
 			bad("%s: witness holds %v, expected %s (value reduced modulo the field)", c.name, vs, c.want)
 		}
+		// the test engine converts assignments with its own routine: it must read the same value
+		// the engine does not canonicalise its inputs: compare only representations of values already in [0, p), large fields
+		if field == "tinyfield" || strings.Contains(c.name, "negative") || strings.Contains(c.name, "big.Int") || strings.Contains(c.name, ">= p") {
+			continue
+		}
+		var terr error
+		pan, msg = common.Safely(func() { terr = test.IsSolved(&convCircuit{}, &convCircuit{X: c.v, Y: c.want}, mod) })
+		if pan {
+			bad("%s: test engine panics: %s", c.name, msg)
+		} else if terr != nil {
+			bad("%s: the test engine reads another value than %s: %v", c.name, c.want, firstLine(terr.Error()))
+		}
 	}
 	res.NbLeaves = len(cases)
 	var _ = bytes.Equal
@@ -231,4 +246,14 @@ func SchemaCheck(args common.Args, out *common.Out) error {
 	})
 	out.Emit(convCheck(field))
 	return nil
+}
+
+// safeToJSON: a panic inside the encoder is reported like an error (the process must survive to judge the other types).
+func safeToJSON(w witness.Witness, sch *schema.Schema) (js []byte, err error) {
+	defer func() {
+		if e := recover(); e != nil {
+			err = fmt.Errorf("panic: %v", e)
+		}
+	}()
+	return w.ToJSON(sch)
 }
